@@ -1,6 +1,7 @@
 import Drivers.Proto
 import St4sd.Model.Layer
 import St4sd.Model.DslLoad
+import St4sd.Model.C15Stages
 /-! Model driver for property C15.
 
 ops
@@ -15,6 +16,9 @@ ops
   (values already `str()`-ed, `null` = `None`)
   → `{"names":[[stage,name] | "invalid" | "fuel",...],"envs":[null | "none" | "env<i>",...],
      "registered":[["env<i>",[[key,value|null],...]],...]}`
+* `{"op":"stages","listing":[[index,is_instance_flavour,name],...],"is_instance":bool,"upto":n}` — the files of
+  conf/stages.d matching `stage*.conf` in the order the listing returned them
+  → `{"stages":[name|null,...]}` (for the stage indices 0..n-1)
 -/
 open Lean Proto St4sd.Layer St4sd.Assoc St4sd.DslLoad
 
@@ -103,6 +107,18 @@ def handle (j : Json) : Except String Json := do
       ("names", jarr ((assignNames [] steps).map nameResJson)),
       ("envs", jarr ((assignEnvs [] envs).map envNameJson)),
       ("registered", jarr ((registered [] envs).map fun p => jarr [jstr s!"env{p.1}", envEntries p.2]))]
+  | "stages" =>
+    let listing ← (← getArr j "listing").mapM (fun e => do
+      let a ← e.getArr?
+      if a.size != 3 then throw "listing entry must be [index,is_instance,name]"
+      return ({ idx := (← a[0]!.getNat?), inst := (← a[1]!.getBool?), name := (← a[2]!.getStr?) }
+              : St4sd.C15Stages.Entry))
+    let isInst ← getBool j "is_instance"
+    let upto ← (← j.getObjVal? "upto").getNat?
+    return jobj [("stages", jarr ((List.range upto).map fun i =>
+      match St4sd.C15Stages.discover isInst listing i with
+      | some n => jstr n
+      | none => Json.null))]
   | _ => throw s!"unknown op {op}"
 
 def main : IO Unit := serve handle
